@@ -3,7 +3,8 @@
     Core Liquid Fragment, which the correspondence run ties to /repo).
     The theorems state the documented laws of that semantics. *)
 From LQ Require Import Core.Render Proofs.Value_proofs Proofs.Render_proofs Proofs.Render_buffer Proofs.Render_fuel Proofs.CrossModel.
-From LQ Require Import Proofs.Render_lambda Proofs.Value_decimal.
+From LQ Require Import Proofs.Render_lambda Proofs.Value_decimal Proofs.CrossModel_decimal Proofs.CrossModel_values.
+From LQ Require Kernels.FVal Kernels.FiltersStr Kernels.FiltersSeq.
 
 (** Sequencing is compositional: rendering [l1 ++ l2] is rendering [l1] and
     then [l2] from where [l1] stopped; the meaning of a construct does not
@@ -147,3 +148,50 @@ Print Assumptions c01_integer_output_denotes_the_integer.
 Theorem c01_integer_output_injective : forall a b, str_of_Z a = str_of_Z b -> a = b.
 Proof. exact str_of_Z_injective. Qed.
 Print Assumptions c01_integer_output_injective.
+
+(** Cross-model consistency.  The filter kernels of C19/C02 (Kernels/FVal.v,
+    FiltersStr.v, FiltersSeq.v) carry their own, independently written value
+    semantics.  On the values both models represent ([emb]: nil, booleans,
+    integers, strings, lists and dicts of those) the two never contradict each
+    other: the decimal rendering of integers is the same function, and wherever
+    both give a modelled answer the Liquid string form, truthiness and the
+    filters upcase, downcase, append, prepend, first, last and join agree. *)
+Theorem c01_integer_renderings_agree : forall z, str_of_Z z = FVal.z_to_str z.
+Proof. exact str_of_Z_models_agree. Qed.
+Print Assumptions c01_integer_renderings_agree.
+
+Theorem c01_liquid_string_models_agree : forall v fv s,
+  emb v = Some fv -> FVal.to_liquid_string fv = Ok s -> to_liquid_string v = Some s.
+Proof. exact to_liquid_string_models_agree. Qed.
+Print Assumptions c01_liquid_string_models_agree.
+
+Theorem c01_truthiness_models_agree : forall v fv,
+  emb v = Some fv -> is_truthy v = FVal.is_truthy fv.
+Proof. exact truthiness_models_agree. Qed.
+Print Assumptions c01_truthiness_models_agree.
+
+Theorem c01_filters_models_agree :
+  (forall v fv r fr, emb v = Some fv ->
+     apply_filter FUpcase v [] = EOk r -> FiltersStr.upcase_f fv = Ok fr -> emb r = Some fr)
+  /\ (forall v fv r fr, emb v = Some fv ->
+     apply_filter FDowncase v [] = EOk r -> FiltersStr.downcase_f fv = Ok fr -> emb r = Some fr)
+  /\ (forall v a fv fa r fr, emb v = Some fv -> emb a = Some fa ->
+     apply_filter FAppend v [a] = EOk r -> FiltersStr.append_f fv fa = Ok fr -> emb r = Some fr)
+  /\ (forall v a fv fa r fr, emb v = Some fv -> emb a = Some fa ->
+     apply_filter FPrepend v [a] = EOk r -> FiltersStr.prepend_f fv fa = Ok fr -> emb r = Some fr)
+  /\ (forall v fv r fr, emb v = Some fv ->
+     apply_filter FFirst v [] = EOk r -> FiltersSeq.first_f fv = Ok fr -> emb r = Some fr)
+  /\ (forall v fv r fr, emb v = Some fv ->
+     apply_filter FLast v [] = EOk r -> FiltersSeq.last_f fv = Ok fr -> emb r = Some fr)
+  /\ (forall v fv args fsep r fr, emb v = Some fv ->
+     match args, fsep with
+     | [], None => True
+     | [a], Some fa => emb a = Some fa
+     | _, _ => False
+     end ->
+     apply_filter FJoin v args = EOk r -> FiltersSeq.join_f fv fsep = Ok fr -> emb r = Some fr).
+Proof.
+  exact (conj upcase_models_agree (conj downcase_models_agree (conj append_models_agree
+        (conj prepend_models_agree (conj first_models_agree (conj last_models_agree join_models_agree)))))).
+Qed.
+Print Assumptions c01_filters_models_agree.
